@@ -5,7 +5,7 @@ CONSTANTS
   Vals <- ValsEX
   MaxLen = 4
   Phased = FALSE
-  InitFamily <- InitFew
+  InitFamily <- InitEmptyAndFull
   Ops <- OpsTxOnly
 INIT Init
 NEXT Next
